@@ -416,10 +416,13 @@ Definition f_ip_array (l : line) (name : bytes) (vs : list (option bytes)) : res
      truncated := false
      rem := cap(l.buffer) - l.index - 1 - len(name) - 2
      if rem <= len(value)*3 {
-       if rem < len("TRUNCATED ") { return l }        -- fix: no room for the marker, drop the field
+       if rem <= len("TRUNCATED ") { return l }       -- fix: no room for the marker after "name=[]", drop the field
        copy(l.buffer[cap-len("TRUNCATED "):], "TRUNCATED "); rem -= 10; value = value[:rem/3]; truncated = true }
      ' ' ; copy name ; copy "=[" ; for _, v := range value { writeHex(v); ' ' }
-     if len(value) > 0 { l.index-- } ; ']' ; if truncated { l.index = cap - 1 }
+     if len(value) > 0 { l.index-- } ; ']' ;
+     if truncated { for l.index < cap-len("TRUNCATED ") { appendByte(' ') } ; l.index = cap - 1 }
+       -- fix (/repo "fastlog ByteArray blanks the gap"): as found the 0-2 bytes between ']' and the marker
+          kept what a pooled line held before, and at rem = 10 the ']' overwrote the marker's 'T' 
    value[:rem/3] panics iff rem/3 < 0 (Go's / truncates toward zero: Z.quot); rem/3 <= len(value)
    always holds on this branch.  *)
 Definition TRUNCATED : bytes := [84;82;85;78;67;65;84;69;68;32].
@@ -428,19 +431,26 @@ Fixpoint ba_loop (vs : bytes) (l : line) : res line :=
   | [] => Ok l
   | v :: r => (l <- write_hex l v ;; l <- append_byte l 32 ;; ba_loop r l)%res
   end.
+(* for l.index < k+index { appendByte(' ') } *)
+Fixpoint fill_spaces (k : nat) (l : line) : res line :=
+  match k with
+  | O => Ok l
+  | S k' => (l <- append_byte l 32 ;; fill_spaces k' l)%res
+  end.
 Definition f_byte_array (l : line) (name : bytes) (value : bytes) : res line :=
   let rem := (Z.of_nat BUFSZ - Z.of_nat (index l) - 1 - Z.of_nat (List.length name) - 2)%Z in
   let trunc := (rem <=? Z.of_nat (List.length value) * 3)%Z in
   let b1 := if trunc then write_at (buf l) (BUFSZ - 10) TRUNCATED else buf l in
   let hi := Z.quot (rem - 10) 3 in
-  if trunc && (rem <? 10)%Z then Ok l
+  if trunc && (rem <=? 10)%Z then Ok l
   else if trunc && (hi <? 0)%Z then Panic
   else
     let value' := if trunc then firstn (Z.to_nat hi) value else value in
     (l <- append_byte (mkLine b1 (index l)) 32 ;; l <- copy_in l name ;; l <- copy_in l [61; 91] ;;
      l <- ba_loop value' l ;;
      l <- append_byte (match value' with [] => l | _ => dec_index l end) 93 ;;
-     Ok (if trunc then mkLine (buf l) (BUFSZ - 1) else l))%res.
+     if trunc then (l <- fill_spaces (BUFSZ - 10 - index l) l ;; Ok (mkLine (buf l) (BUFSZ - 1)))
+     else Ok l)%res.
 
 (* ---------------------------------------------------------------- finishing a line *)
 
